@@ -16,6 +16,7 @@ import Proofs.C04Wire
 import Proofs.C04Rows
 import Proofs.C04Maps
 import Proofs.C04Reuse
+import Proofs.C04Paged
 namespace C04
 open FrameRead RespSpec Rows
 
@@ -358,6 +359,76 @@ theorem C04_skip_metadata (mp page : Meta) (rs : List (List Cell))
       (by simpa [it, iterOf, viewMeta, W, he] using actualCount_eq page.cols hpc)
       (by simp [it, iterOf, h3])
     simpa [typedRows, it, iterOf] using this
+
+/-! ## 4b. a whole query: what executeQuery makes of every kind of response, and all pages through one Iter -/
+
+open Paged in
+/-- WHAT THE APPLICATION GETS FOR EVERY KIND OF ANSWER to a statement (conn.go executeQuery's switch, through the
+    receive path, for every well-formed response of every version):
+    * RESULT/Rows: an iterator over exactly the rows, with the page's own metadata, row count, warnings, custom
+      payload and trace id; it will fetch a further page exactly when the page carries a paging state;
+    * an ERROR of any code but UNPREPARED: `iter.err` is that error — code, message and the code's fields as sent —
+      with the response's warnings / payload / trace id; no rows;
+    * RESULT void / set-keyspace / schema-change: an empty iterator without error (warnings / payload / trace id kept);
+    * UNPREPARED: the request is sent again and the NEXT answer decides. -/
+theorem C04_query_view (v : Nat) (r : LResp) (ws : List FrameRead.Bytes) (hw : wf v r = true)
+    (hlen : (encodeBody v r).length ≤ Compress.maxFrameSize) :
+    (∀ m rs, r.body = .result (.rows m rs) → execute v true (encodeFrame v r :: ws) = some (qOf r m rs, ws)) ∧
+    (∀ msg e, r.body = .error msg e → (∀ id, e ≠ .unprepared id) →
+      execute v true (encodeFrame v r :: ws) = some (qErr r msg e, ws)) ∧
+    (r.body = .result .void ∨ (∃ ks, r.body = .result (.setKeyspace ks)) ∨ (∃ sc, r.body = .result (.schemaChange sc)) →
+      execute v true (encodeFrame v r :: ws) = some (qEmpty r, ws)) ∧
+    (∀ msg id, r.body = .error msg (.unprepared id) → execute v true (encodeFrame v r :: ws) = execute v true ws) := by
+  refine ⟨?_, ?_, ?_, ?_⟩
+  · intro m rs hb
+    simp [execute, step1_rows v r m rs hw hlen hb]
+  · intro msg e hb hu
+    simp [execute, step1_error v true r msg e hw hlen hb hu]
+  · intro hb
+    simp [execute, step1_empty v true r hw hlen hb]
+  · intro msg id hb
+    have : step1 v true (encodeFrame v r) = .again := by
+      simp only [step1, recv_wf v r hw hlen, dispatch, view, hb, viewBody, viewErr]
+    simp [execute, this]
+
+open Paged in
+/-- ALL PAGES OF A QUERY THROUGH Iter.Scan (`for iter.Scan(dests...) { }`, a recorder on every destination):
+    for every protocol version, any number of pages `p :: rest` — each a well-formed RESULT/Rows response with its
+    own column specifications (names, table spec and types may differ from page to page as long as the rows fill
+    the same number of destinations), any number of rows, empty pages anywhere —, every page but the last
+    announcing more and the last one not: the loop delivers exactly the cells of every row of every page, in
+    order, each page's cells typed by THAT page's metadata, and then ends (Scan false) without an error, the
+    iterator showing the LAST page's metadata, warnings and custom payload, every answer consumed. -/
+theorem C04_pages_scan (v W : Nat) (p : RowsPage) (rest : List RowsPage)
+    (hp : PageOk v W p) (hall : ∀ x ∈ rest, PageOk v W x) (hch : chained p rest)
+    (hlast : (lastPage p rest).m.paging = none) :
+    pdrain v (List.replicate W true) (rowCount (p :: rest) + 1) (rest.map (fun x => encodeFrame v x.r)) (pageQ p)
+      = some ((p :: rest).flatMap pageCalls, atEnd (pageQ (lastPage p rest)), []) ∧
+    (atEnd (pageQ (lastPage p rest))).err = none ∧
+    (atEnd (pageQ (lastPage p rest))).hdr = some (hdrSpec (lastPage p rest).r) ∧
+    (atEnd (pageQ (lastPage p rest))).it.md = viewMeta (lastPage p rest).m := by
+  refine ⟨?_, rfl, rfl, rfl⟩
+  have h := pages_drain v W rest p hp hall hch 0 []
+  simp only [List.append_nil] at h
+  rw [h, pdrain_last v _ (pageQ (lastPage p rest)) rfl (by simp [pageQ, qOf, hlast]) [] 0]
+  simp
+
+open Paged in
+/-- THE SAME WHEN A LATER PAGE FAILS: every page announces more and the request after the last page is answered
+    with an ERROR (any code but UNPREPARED): the loop delivers every row of every page and ends with `iter.err`
+    being exactly that error — code, message, the code's fields — and the error response's warnings / payload. -/
+theorem C04_pages_scan_error (v W : Nat) (p : RowsPage) (rest : List RowsPage) (r : LResp) (msg : FrameRead.Bytes) (e : ErrBody)
+    (hp : PageOk v W p) (hall : ∀ x ∈ rest, PageOk v W x) (hch : chained p rest)
+    (hlast : (lastPage p rest).m.paging.isSome = true)
+    (hw : wf v r = true) (hlen : (encodeBody v r).length ≤ Compress.maxFrameSize)
+    (hb : r.body = .error msg e) (hu : ∀ id, e ≠ .unprepared id) :
+    pdrain v (List.replicate W true) (rowCount (p :: rest) + 2)
+        (rest.map (fun x => encodeFrame v x.r) ++ [encodeFrame v r]) (pageQ p)
+      = some ((p :: rest).flatMap pageCalls, qErr r msg e, []) := by
+  have h := pages_drain v W rest p hp hall hch 1 [encodeFrame v r]
+  rw [h, pdrain_switch v _ (pageQ (lastPage p rest)) rfl (by simpa [pageQ, qOf] using hlast) _ [] _
+    (step1_error v true r msg e hw hlen hb hu) 1, pdrain_error]
+  simp
 
 /-! ## 5. the witnesses of the repaired findings (conformance, kernel-checked; each is also a replay
        input), the remaining open finding KF-C04-3, regressions about the OLD definitions -/
@@ -760,5 +831,85 @@ example : wfRows (colTypes (Cols.global b!"ks" b!"t" [(b!"c0", .native 3), (b!"c
     totalWidth (colTypes (Cols.global b!"ks" b!"t" [(b!"c0", .native 3), (b!"c1", .native 9)]))
       = [Marshal.GoTy.str false, .ptr (.int .int false)].length ∧
     [Marshal.GoTy.str false, .ptr (.int .int false)].all statelessTy = true := by decide
+
+/-! ### KF-C04-8 (OPEN, proposed): Query.MapScanCAS panics where MapScan fails -/
+
+/-- a lightweight-transaction result: `[applied]` boolean and `c` of the custom type `x.Y`, one row (true, 00) -/
+def cexCasResp : LResp :=
+  { stream := 7, tracing := none, warnings := none, payload := none, beta := false,
+    body := .result (.rows { paging := none, cols := .global b!"ks" b!"t" [(b!"[applied]", .native 4), (b!"c", .custom b!"x.Y")] }
+      [[.bytes [1], .bytes [0]]]) }
+
+def cexCasQ : Paged.QIter :=
+  qOf cexCasResp { paging := none, cols := .global b!"ks" b!"t" [(b!"[applied]", .native 4), (b!"c", .custom b!"x.Y")] }
+    [[.bytes [1], .bytes [0]]]
+
+/-- FULL PROPERTY (does not hold): for every well-formed result MapScanCAS returns `applied` and the other columns,
+    or an error. Counterexample: the response is well-formed, it IS what executeQuery hands to MapScanCAS
+    (C04_query_view), ScanCAS reports applied = true and the cell of `c` — and MapScanCAS panics (`none`). -/
+theorem C04_cex_mapscancas_panics :
+    wf 4 cexCasResp = true ∧
+    Paged.execute 4 true [encodeFrame 4 cexCasResp] = some (cexCasQ, []) ∧
+    (Paged.scanCAS cexCasQ 1).map (fun x => (x.1, x.2.1.map (fun c => (c.dest, c.data)))) = some (true, [(0, some [0])]) ∧
+    (Paged.mapScanCAS cexCasQ).isNone = true := by
+  refine ⟨by decide, ?_, by decide, by decide⟩
+  exact (C04_query_view 4 cexCasResp [] (by decide) (by decide)).1 _ _ rfl
+
+open Paged in
+/-- what is true of MapScanCAS: on a result with rows it panics EXACTLY when Iter.MapScan does not return true or
+    stores nothing under `[applied]`; otherwise it returns what MapScan stored: `applied` from the cell of
+    `[applied]`, the other columns, and iter.Close()'s error -/
+theorem C04_mapscancas_panics_exactly (q : QIter) (hf : q.it.failed = false) (hn : (q.it.numRows == 0) = false) :
+    (mapScanCAS q = none ↔
+      (∀ it' m, mapScan q.it = .row it' m → m.lookup b!"[applied]" = none)) := by
+  unfold mapScanCAS
+  simp only [hf, hn, Bool.false_eq_true, if_false]
+  cases hm : mapScan q.it with
+  | crash => simp
+  | stop it' => simp
+  | row it' m =>
+    constructor
+    · intro h it'' m' heq
+      cases heq
+      cases hl : List.lookup [0x5B, 0x61, 0x70, 0x70, 0x6C, 0x69, 0x65, 0x64, 0x5D] m with
+      | none => rfl
+      | some v => simp [hl] at h
+    · intro h
+      simp [h it' m rfl]
+
+/-- the hypotheses of C04_pages_scan / C04_pages_scan_error are satisfiable: a query of two pages, `c blob` with the
+    rows (01), (null) and a paging state, then — the column named differently, per-column table spec — (02) -/
+def exPage1 : RowsPage :=
+  { r := { stream := 1, tracing := some (List.replicate 16 9), warnings := none, payload := none, beta := false,
+           body := .result (.rows { paging := some [1], cols := .global b!"ks" b!"t" [(b!"c", .native 3)] } [[.bytes [1]], [.null]]) },
+    m := { paging := some [1], cols := .global b!"ks" b!"t" [(b!"c", .native 3)] }, rs := [[.bytes [1]], [.null]] }
+def exPage2 : RowsPage :=
+  { r := { stream := 2, tracing := none, warnings := some [b!"w"], payload := none, beta := false,
+           body := .result (.rows { paging := none, cols := .perCol [{ ks := b!"ks", table := b!"t", name := b!"d", typ := .native 3 }] } [[.bytes [2]]]) },
+    m := { paging := none, cols := .perCol [{ ks := b!"ks", table := b!"t", name := b!"d", typ := .native 3 }] }, rs := [[.bytes [2]]] }
+
+theorem exPage1_ok : PageOk 4 1 exPage1 := ⟨by decide, by decide, rfl, (by intro n g h; cases h), by decide, by decide⟩
+theorem exPage2_ok : PageOk 4 1 exPage2 := ⟨by decide, by decide, rfl, (by intro n g h; cases h), by decide, by decide⟩
+
+example : Paged.pdrain 4 [true] 4 [encodeFrame 4 exPage2.r] (pageQ exPage1)
+    = some ([exPage1, exPage2].flatMap pageCalls, atEnd (pageQ exPage2), []) :=
+  (C04_pages_scan 4 1 exPage1 [exPage2] exPage1_ok (by intro x hx; simp at hx; subst hx; exact exPage2_ok) ⟨rfl, trivial⟩ rfl).1
+
+/-- three cells in order, the third typed by the second page's own metadata -/
+example : [exPage1, exPage2].flatMap pageCalls
+    = [[{ dest := 0, typ := blobT, data := some [1] }], [{ dest := 0, typ := blobT, data := none }],
+       [{ dest := 0, typ := blobT, data := some [2] }]] := rfl
+
+/-- a v4 Unavailable after the first page satisfies the hypotheses of C04_pages_scan_error -/
+def exUnavailable : LResp :=
+  { stream := 3, tracing := none, warnings := none, payload := none, beta := false, body := .error b!"no" (.unavailable 1 2 1) }
+example : Paged.pdrain 4 [true] 4 [encodeFrame 4 exUnavailable] (pageQ exPage1)
+    = some ([exPage1].flatMap pageCalls, qErr exUnavailable b!"no" (.unavailable 1 2 1), []) :=
+  C04_pages_scan_error 4 1 exPage1 [] exUnavailable b!"no" (.unavailable 1 2 1) exPage1_ok (by simp) trivial rfl
+    (by decide) (by decide) rfl (by intro id h; cases h)
+
+/-- C04_query_view's hypotheses: the same responses as first answers -/
+example : Paged.execute 4 true [encodeFrame 4 exUnavailable] = some (qErr exUnavailable b!"no" (.unavailable 1 2 1), []) :=
+  (C04_query_view 4 exUnavailable [] (by decide) (by decide)).2.1 _ _ rfl (by intro id h; cases h)
 
 end C04
